@@ -476,6 +476,51 @@ pub fn check(c: &Case) -> Verdict {
             bad!(sig, "after a dump taken with a budget of {k} open descriptors: {d}");
         }
     }
+    // ---- 6. files the dumper cannot open ----------------------------------------------------
+    // open() refused (EACCES) for one family of files at a time: the memory map, the memory file, the
+    // per-thread status file (from the first read on: thread information cannot be built), and the
+    // best-effort files together
+    {
+        use crate::vcore::faultfs::*;
+        for (mask, arm) in [(F_MAPS, 2), (F_MEM, 2), (F_STATUS, 0), (F_CPUINFO | F_COMM | F_AUXV | F_CMDLINE | F_ENVIRON | F_LIMITS | F_OS_RELEASE, 2)] {
+            let mut w = make_writer(pid, &opts);
+            let mut dest = Dest::new(vec![], 0);
+            let (o, _) = with_denied_files(mask, arm, || run_dump(&mut w, &mut dest));
+            dumps += 1;
+            match &o {
+                DumpOutcome::Panic(l, m) => return panic_verdict(l, m),
+                DumpOutcome::Ok(_) => classes.push("unopenable-file:ok".into()),
+                DumpOutcome::Err(_) => classes.push("unopenable-file:err".into()),
+            }
+            if let Err((sig, d)) = judge_alive(&t, &threads, &spec, &gone) {
+                bad!(sig, "after a dump during which files {mask:#x} could not be opened: {d}");
+            }
+        }
+    }
+    // ---- 7. register reads refused ------------------------------------------------------------
+    // the kernel refuses ptrace register requests to the dumping thread (seccomp filter): both
+    // interfaces for the general-purpose set, both for the floating-point set, the debug registers, all
+    // of them - a thread is then attached but its information cannot be built
+    for mask in [1u8 | 4, 2 | 8, 16, 31] {
+        // request and judgement both run on the filtered thread: it is the tracer of anything the
+        // request leaves attached, and a tracer that exits releases its tracees
+        let r = on_filtered_thread(mask, || {
+            let mut w = make_writer(pid, &opts);
+            let mut dest = Dest::new(vec![], 0);
+            let o = run_dump(&mut w, &mut dest);
+            (o, judge_alive(&t, &threads, &spec, &gone))
+        });
+        let Some((o, alive)) = r else { return Verdict::Inconclusive("seccomp filter could not be installed".into()) };
+        dumps += 1;
+        match &o {
+            DumpOutcome::Panic(l, m) => return panic_verdict(l, m),
+            DumpOutcome::Ok(_) => classes.push("register-reads-refused:ok".into()),
+            DumpOutcome::Err(_) => classes.push("register-reads-refused:err".into()),
+        }
+        if let Err((sig, d)) = alive {
+            bad!(sig, "after a dump during which ptrace register requests {mask:#x} were refused: {d}");
+        }
+    }
     count("dumps", dumps);
     classes.sort();
     classes.dedup();
@@ -653,7 +698,7 @@ pub fn run(ctx: &mut LaneCtx) {
         SubSpec {
             name: "faults-and-signals",
             cases: (64, 2_000),
-            rule: "per generated scenario (1..12 sleeper/parked/spinner/exiter threads and at most one sandbox-style helper thread running with a null stack pointer, signal schedule of up to 9 entries over 7 phase points (with extra weight on the attach of the signalled thread itself) x thread x {SIGUSR1,SIGHUP,SIGTRAP,SIGURG,SIGRTMIN+0..3} x count 1..5, StopProcess fail point on/off, a size limit (none / 0..120000 bytes / any) in three scenarios of ten, exiters cued at the threads-enumerated hook): one fault-free dump with the schedule, then EVERY destination call failing as I/O error and as panic (exhaustive per scenario), sampled fail-point subsets, three natural hard errors (unreadable application memory, a blamed thread that does not exist, a crash instruction pointer inside the listed but unreadable [vvar] mapping) and six dumps taken while the dumper may only open 0, 1, 2, 3, 5 or 8 more descriptors (every further open fails with EMFILE); after each of them the liveness predicate, after the first the signal accounting; every scenario is non-trivial; distinct = hash of scenario",
+            rule: "per generated scenario (1..12 sleeper/parked/spinner/exiter threads and at most one sandbox-style helper thread running with a null stack pointer, signal schedule of up to 9 entries over 7 phase points (with extra weight on the attach of the signalled thread itself) x thread x {SIGUSR1,SIGHUP,SIGTRAP,SIGURG,SIGRTMIN+0..3} x count 1..5, StopProcess fail point on/off, a size limit (none / 0..120000 bytes / any) in three scenarios of ten, exiters cued at the threads-enumerated hook): one fault-free dump with the schedule, then EVERY destination call failing as I/O error and as panic (exhaustive per scenario), sampled fail-point subsets, three natural hard errors (unreadable application memory, a blamed thread that does not exist, a crash instruction pointer inside the listed but unreadable [vvar] mapping) six dumps taken while the dumper may only open 0, 1, 2, 3, 5 or 8 more descriptors (every further open fails with EMFILE) and four dumps during which one family of files cannot be opened at all (memory map / memory file / per-thread status / all best-effort files) and four dumps on a thread to which the kernel refuses ptrace register requests (general-purpose set through both interfaces / floating-point set through both / debug registers / all); after each of them the liveness predicate, after the first the signal accounting; every scenario is non-trivial; distinct = hash of scenario",
             strategy: case_strategy().boxed(),
             max_shrink_iters: 40,
             log_current: true,
